@@ -676,15 +676,15 @@ func c16Classes(c *core.Ctx) []c16Class {
 	return []c16Class{
 		{"fde", 229 * 3 * 51, c16GenFDE},
 		qsub,
-		{"query-db", c.N(40000, 600000), func(c *core.Ctx, i int) *c16Case {
+		{"query-db", c.N(40000, 1800000), func(c *core.Ctx, i int) *c16Case {
 			r := c.Rng(core.StrID("c16dbmask"), uint64(i))
 			return c16GenQuery(c, "query-db", i, r.U32()&(1<<18-1), i%256)
 		}},
-		{"rotate", c.N(40000, 500000), c16GenRotate},
-		{"intvar", c.N(20000, 300000), func(c *core.Ctx, i int) *c16Case { return c16GenSmall(c, "intvar", i) }},
+		{"rotate", c.N(40000, 1500000), c16GenRotate},
+		{"intvar", c.N(20000, 900000), func(c *core.Ctx, i int) *c16Case { return c16GenSmall(c, "intvar", i) }},
 		{"rand", c.N(15000, 300000), func(c *core.Ctx, i int) *c16Case { return c16GenSmall(c, "rand", i) }},
 		{"xid", c.N(15000, 300000), func(c *core.Ctx, i int) *c16Case { return c16GenSmall(c, "xid", i) }},
-		{"generic", c.N(25600, 640000), func(c *core.Ctx, i int) *c16Case { return c16GenSmall(c, "generic", i) }},
+		{"generic", c.N(25600, 1920000), func(c *core.Ctx, i int) *c16Case { return c16GenSmall(c, "generic", i) }},
 	}
 }
 
